@@ -39,7 +39,7 @@ def run(ctx):
     # (a) conformance
     found = None
     for s in ([ctx.seed] if not ctx.thorough else [ctx.seed + i for i in range(5)]):
-        n, mism, _ = common.corr(ctx, 'job-conformance', 'corrjob', ['-seed', s, '-n', ctx.pick(250, 1500)], ['corr', 'job'], ok_exit=(0, 1))
+        n, mism, _ = common.corr(ctx, 'job-conformance', 'corrjob', ['-seed', s, '-n', ctx.pick(250, 1500)], ['corr', 'job'], ok_exit=(0, 1, 3))
         if mism:
             found = ('corrjob', ['-seed', s, '-n', ctx.pick(250, 1500)], ['corr', 'job'], mism)
             break
